@@ -728,3 +728,229 @@ def scen_split_path(ctx, M):
     return (out if isinstance(out, str) else
             [x if x is None or isinstance(x, (str, SymStr)) else repr(x)
              for x in out],)
+
+
+# ---------------------------------------------------------------- C10
+from spec import units as UN                      # noqa: E402
+DIG = frozenset(b'0123456789')
+MAGDOM = frozenset(b'0123456789.x')
+PREDOM = frozenset(b'kKMGTPEZYRQimx')
+UNITDOM = frozenset(b'bitBx')
+
+
+def number_shape(mag):
+    """reference: mag is  D* '.'? D+  (forks on the characters)"""
+    n = len(mag)
+    i = 0
+    while i < n and sstr.in_set(_c(mag, i), DIG):
+        i += 1
+    lead = i
+    if i < n and sstr.in_set(_c(mag, i), frozenset(b'.')):
+        i += 1
+        j = i
+        while j < n and sstr.in_set(_c(mag, j), DIG):
+            j += 1
+        return j == n and j > i
+    return i == n and lead > 0
+
+
+def _c(s, i):
+    if isinstance(s, str):
+        return ord(s[i])
+    return s.c[i]
+
+
+def scen_s2b(ctx, M):
+    su = M.su
+    p = ctx.p
+    system = p['system']
+    rint = p['return_int']
+    sign = ctx.choice('sign', ['', '+', '-', ' '])
+    nm = ctx.choice('nm', list(range(1, p['nmag'] + 1)))
+    mag = ctx.str('mag', nm, MAGDOM)
+    npre = ctx.choice('npre', [0, 1, 2])
+    pre = ctx.str('pre', npre, PREDOM)
+    nu = ctx.choice('nu', [1, 2, 3])
+    unit = ctx.str('unit', nu, UNITDOM)
+    text = cat(sign, mag, pre, unit)
+    m = ctx.float('m', lo=-1e200, hi=1e200)     # no overflow to infinity
+    seen = []
+
+    def hook(s):
+        seen.append(s)
+        return m
+    if ctx.sym:
+        env.FLOAT_HOOK[0] = hook
+    else:
+        su.float = hook
+    try:
+        try:
+            r = su.string_to_bytes(text, unit_system=system, return_int=rint)
+            out = 'ok'
+        except ValueError:
+            r, out = None, 'ValueError'
+        except Exception as e:
+            r, out = None, 'EXC:' + type(e).__name__
+    finally:
+        if ctx.sym:
+            env.FLOAT_HOOK[0] = None
+        else:
+            del su.float
+    # reference: the text after the number must be prefix + unit for some
+    # admitted prefix (possibly none) and unit
+    table = UN.prefixes(system)
+    ok = bool(table) and sign != ' ' and number_shape(mag)
+    base = exp = div = None
+    if ok:
+        tail = cat(pre, unit)
+        hit = None
+        for pf, (b_, e_) in [('', (1, 0))] + sorted(table.items()):
+            for u, d in UN.UNITS.items():
+                if len(pf) + len(u) != npre + nu:
+                    continue
+                if ctx.truth(tail == pf + u):
+                    hit = (b_, e_, d)
+                    break
+            if hit:
+                break
+        if hit is None:
+            ok = False
+        else:
+            base, exp, div = hit
+    if not ok:
+        ctx.goal('rejected')
+        ctx.check('C10-valueerror-for-inadmissible-text',
+                  out == 'ValueError')
+        return (out,)
+    ctx.goal('accepted')
+    ctx.check('C10-admitted-text-accepted', out == 'ok')
+    if out != 'ok':
+        return (out,)
+    ctx.check('C10-number-part', len(seen) == 1 and
+              (seen[0] == cat(sign, mag)) is not False and
+              ctx.truth(seen[0] == cat(sign, mag)))
+    q = m / 8 if div == 8 else m
+    want = q * pow(base, exp) if exp else q
+    if rint:
+        if ctx.sym:
+            wi = core.float_ceil_int(want)
+        else:
+            import math
+            wi = int(math.ceil(want))
+        ctx.check('C10-ceiling', h.veq(r == wi, True))
+    else:
+        ctx.check('C10-exact-quantity', core.same_float(r, want)
+                  if ctx.sym else (r == want or (r != r and want != want)))
+    return (out,)
+
+
+# ---------------------------------------------------------------- C10 qemu
+QE = 'oslo_utils.imageutils.qemu'
+
+
+def load_sym_qemu():
+    ld = env.Loader(env={'urllib': _FakeUrllib()},
+                    sym=['oslo_utils.encodeutils', SU])
+    m = Mods()
+    m.qe = ld.load(QE)
+    m.su = ld.load(SU)
+    m.sha = ld.sha
+    return m
+
+
+def load_real_qemu():
+    m = Mods()
+    m.qe = env.import_real(QE)
+    m.su = env.import_real(SU)
+    return m
+
+
+def scen_extract(ctx, M):
+    """QemuImgInfo._extract_bytes on `<digits>[ ]<unit>[ (<digits> bytes)]`"""
+    qe, su = M.qe, M.su
+    nm = ctx.choice('nm', [1, 2])
+    mag = ctx.str('mag', nm, DIG)
+    sp = ctx.choice('sp', ['', ' '])
+    nu = ctx.choice('nu', [0, 1, 2, 3])
+    unit = ctx.str('unit', nu, frozenset(b'KMGTBibx'))
+    has_bytes = ctx.choice('hb', [False, True])
+    details = cat(mag, sp, unit)
+    nb = None
+    if has_bytes:
+        nn = ctx.choice('nn', [1, 2, 3])
+        nb = ctx.str('nb', nn, DIG)
+        details = cat(details, ' (', nb, ' bytes)')
+    m = ctx.float('m', lo=0.0, hi=1e200)
+    seen = []
+
+    def hook(s):
+        seen.append(s)
+        return m
+    if ctx.sym:
+        env.FLOAT_HOOK[0] = hook
+        core.ENG.allow_tokens = True
+    else:
+        su.float = hook
+    try:
+        info = qe.QemuImgInfo.__new__(qe.QemuImgInfo)
+        try:
+            r = info._extract_bytes(details)
+            out = 'ok'
+        except ValueError:
+            r, out = None, 'ValueError'
+        except Exception as e:
+            r, out = None, 'EXC:' + type(e).__name__
+    finally:
+        if ctx.sym:
+            env.FLOAT_HOOK[0] = None
+        else:
+            del su.float
+    if has_bytes:
+        ctx.goal('explicit-bytes')
+        ctx.check('C10-explicit-bytes-take-precedence',
+                  out == 'ok' and h.veq(r == _dec(nb), True))
+        return (out,)
+    if nu == 0:
+        ctx.goal('no-unit')
+        ctx.check('C10-plain-number', out == 'ok' and
+                  h.veq(r == _dec(mag), True))
+        return (out,)
+    # unit present: abbreviated single letters mean <letter>B, IEC
+    u = unit
+    if nu == 1 and not ctx.truth(unit == 'B'):
+        u = cat(unit, 'B')
+    table = UN.prefixes('IEC')
+    hit = None
+    for pf, (b_, e_) in [('', (1, 0))] + sorted(table.items()):
+        for un_, d in UN.UNITS.items():
+            if len(pf) + len(un_) == len(u) and ctx.truth(u == pf + un_):
+                hit = (b_, e_, d)
+                break
+        if hit:
+            break
+    if hit is None:
+        ctx.goal('bad-unit')
+        ctx.check('C10-qemu-bad-unit-valueerror', out == 'ValueError')
+        return (out,)
+    ctx.goal('unit')
+    base, exp, div = hit
+    ctx.check('C10-qemu-unit-accepted', out == 'ok')
+    if out == 'ok':
+        q = m / 8 if div == 8 else m
+        want = q * pow(base, exp) if exp else q
+        if ctx.sym:
+            wi = core.float_ceil_int(want)
+        else:
+            import math
+            wi = int(math.ceil(want))
+        ctx.check('C10-qemu-same-arithmetic', h.veq(r == wi, True))
+        ctx.check('C10-qemu-number-part', len(seen) == 1 and
+                  ctx.truth(seen[0] == mag))
+    return (out,)
+
+
+def _dec(s):
+    """value of a digit string"""
+    if isinstance(s, str):
+        return int(s)
+    return sstr.parse_int(s)
